@@ -26,7 +26,7 @@ def budget(tier):
 
 @st.composite
 def _case(draw):
-    prof = S.profile(rich_comments=draw(st.integers(0, 3)) == 0, p_subpackage=0.4, p_foreign_io=0.3, p_paged=0.25, dep_only_file=0.25, p_keyword_rpc=0.08, p_custom_verb=0.05, p_host_per_service=0.3, comment_backslash=True, p_module_named_field=0.04)
+    prof = S.profile(rich_comments=draw(st.integers(0, 3)) == 0, p_subpackage=0.4, p_foreign_io=0.3, p_paged=0.25, dep_only_file=0.25, p_keyword_rpc=0.08, p_custom_verb=0.05, p_host_per_service=0.3, comment_backslash=True, p_module_named_field=0.04, p_enum_alias=0.1)
     api = draw(S.apis(prof))
     opts = draw(S.option_sets())
     extra = draw(st.integers(0, 10))
